@@ -8,7 +8,7 @@ From Coq Require Import List NArith ZArith Bool.
 From Coq.Strings Require Import Byte.
 From GM Require Import Codec.Packet Codec.WF Codec.Dec Codec.RefDecode.
 From GM Require Import Codec.DecProofsBase Codec.DecProofsSafe Codec.DecProofsLocal
-     Codec.DecProofsSpec3 Codec.DecProofsFwd.
+     Codec.DecProofsSpec3 Codec.DecProofsFwd Codec.DecProofsDetect.
 Import ListNotations.
 Open Scope N_scope.
 
@@ -98,6 +98,14 @@ Theorem C02_detect_agrees : forall bs l t n,
   l = Z.of_N n /\ exists b0 r, bs = b0 :: r /\ t = Byte.to_N b0 / 16.
 Proof. exact detect_agrees. Qed.
 Print Assumptions C02_detect_agrees.
+
+(* the same against decodeHeader itself: a header it accepts (valid static type, varint of at
+   most 4 bytes, packet wholly in the buffer) is detected with that length and type *)
+Theorem C02_detect_agrees_header : forall bs ty total flags rl,
+  decode_header bs ty = HOk total flags rl ->
+  detect_go bs = Detected (Z.of_N (total + rl)) (type_code ty).
+Proof. exact detect_agrees_header. Qed.
+Print Assumptions C02_detect_agrees_header.
 
 (* ---- non-vacuity ---- *)
 Definition bs_of (l : list N) : bytes :=
